@@ -13,7 +13,8 @@
      X kind fs app br vbr frq maxb nfr loss fmt cx seed | layout
           kind enc: layout = ch S C m1..   kind surr / penc: layout = f ch
           frq = packet duration in 2.5 ms units; loss = bit mask of packets dropped on the way
-          (bit i%30); fmt = sample format given to the encoder (0 int16, 1 int24, 2 float; +10: loud signal)
+          (bit i%30); fmt = sample format given to the encoder (0 int16, 1 int24, 2 float; +10: loud signal;
+          +20: tone plus broadband noise, so that a VBR encoder uses all the bytes it is offered)
      H fs frq S C nfr variant seed | ch m1 .. m_ch
           packets put together from S independently coded streams (variant 1: one stream of a
           different duration, 2: every stream padded / split in two frames)
@@ -273,7 +274,7 @@ static void tone_result(const double *re, const double *im, int *best, int *marg
 /* One packet (or a loss when n == 0) through the multistream decoders and the stand-alone ones.
    kind: "enc" "surr" "penc" "hand".  known_offs != NULL: the seams are known by construction. */
 static void do_packet(rig_t *g, const char *kind, int x, int idx, const unsigned char *pkt, int n, int fr, int maxb, int vbr,
-                      const int *known_offs)
+                      const int *known_offs, const opus_uint32 *er)
 {
    int S = g->S, ch = g->ch, s, f, c, i;
    int *so = (int *)calloc(S + 1, sizeof(int)), *sk = (int *)calloc(S + 1, sizeof(int)), *sp = (int *)calloc(S + 1, sizeof(int));
@@ -362,6 +363,7 @@ static void do_packet(rig_t *g, const char *kind, int x, int idx, const unsigned
    /* stand-alone decoders: only when the multistream decoder took the packet (a refused packet must
       not advance anybody's state) and the split is complete */
    if (split_ok && rm[0] > 0 && rm[1] > 0 && rm[2] > 0) {
+      opus_uint32 *dr = (opus_uint32 *)calloc((size_t)3 * S, sizeof(opus_uint32));
       js_key("ds"); putchar('[');
       for (f = 0; f < 3; f++) {
          putchar(f ? ',' : ' '); putchar('[');
@@ -371,6 +373,7 @@ static void do_packet(rig_t *g, const char *kind, int x, int idx, const unsigned
             hx_arm(60);
             rs[f][s] = sa_decode(g, f, s, stdp[s], stdn[s], sob, cap);
             hx_disarm();
+            opus_decoder_ctl(g->sd[f][s], OPUS_GET_FINAL_RANGE(&dr[f * S + s]));
             if (s) putchar(',');
             putchar('[');
             for (q = 0; q < nc; q++) {
@@ -387,6 +390,21 @@ static void do_packet(rig_t *g, const char *kind, int x, int idx, const unsigned
       js_key("rs"); putchar('[');
       for (f = 0; f < 3; f++) { if (f) putchar(','); js_ints(rs[f], S); }
       putchar(']');
+      if (er) {
+         /* final range of each stream's encoder after it produced this packet, and of the stand-alone decoder that
+            was given the piece of the packet that belongs to the stream (32-bit words: logged as strings, R6) */
+         js_key("er"); putchar('[');
+         for (s = 0; s < S; s++) printf(s ? ",\"%08x\"" : "\"%08x\"", (unsigned)er[s]);
+         putchar(']');
+         js_key("dr"); putchar('[');
+         for (f = 0; f < 3; f++) {
+            putchar(f ? ',' : ' '); putchar('[');
+            for (s = 0; s < S; s++) printf(s ? ",\"%08x\"" : "\"%08x\"", (unsigned)dr[f * S + s]);
+            putchar(']');
+         }
+         putchar(']');
+      }
+      free(dr);
       if (rm[2] > 0) { g->tpos += rm[2]; g->tcount += rm[2]; }
    }
    js_close();
@@ -400,6 +418,7 @@ done:
 
 /* ---------------------------------------------------------------- signals */
 static double g_amp = 0.25;      /* tone amplitude; 1.4 in "loud" executions (decoded peaks beyond full scale: soft clipping, saturation) */
+static double g_noise = 0.0008;  /* amplitude of the uniform noise added to every channel; 0.08 in "noisy" executions */
 static void gen_frame(float *x, int ch, int n, long pos, int fs, const int *ct, uint64_t seed)
 {
    int c, i;
@@ -407,7 +426,7 @@ static void gen_frame(float *x, int ch, int n, long pos, int fs, const int *ct, 
       hx_rng r; double f = TONE_HZ[ct[c]];
       r.s = seed * 1000003ULL + (uint64_t)c * 7919ULL + (uint64_t)pos;
       for (i = 0; i < n; i++) {
-         double v = g_amp * sin(2 * M_PI * f * (double)(pos + i) / fs + 0.37 * c) + 0.0008 * (hx_unit(&r) * 2 - 1);
+         double v = g_amp * sin(2 * M_PI * f * (double)(pos + i) / fs + 0.37 * c) + g_noise * (hx_unit(&r) * 2 - 1);
          x[(size_t)i * ch + c] = (float)v;
       }
    }
@@ -423,14 +442,14 @@ static int run_x(char *line)
    int ch = 0, S = 0, C = 0, fam = -1, i, err = 0, fr, pk;
    unsigned char map[MAXCH + 8]; int ct[MAXCH + 8];
    OpusMSEncoder *me = NULL; OpusProjectionEncoder *pe = NULL; OpusProjectionDecoder *pd[3] = {NULL, NULL, NULL};
-   rig_t g; float *in; opus_int16 *in16; opus_int32 *in24; hx_buf out;
+   rig_t g; float *in; opus_int16 *in16; opus_int32 *in24; hx_buf out; opus_uint32 *er;
    double *pre = NULL, *pim = NULL; long ppos = 0, pnum = 0; opus_int32 pgain = 0;
    if (!bar) return -1;
    *bar = 0;
    if (sscanf(line, "X %15s %d %d %d %d %d %d %d %d %d %d %lu", kind, &fs, &app, &br, &vbr, &frq, &maxb, &nfr, &loss, &fmt, &cx, &seed) != 12) return -1;
    na = read_ints(bar + 1, a, MAXCH + 8);
    memset(map, 0, sizeof map);
-   g_amp = fmt >= 10 ? 1.4 : 0.25; fmt %= 10; g_amp_last = g_amp;      /* fmt 10..12: the same formats, loud signal */
+   g_amp = fmt / 10 == 1 ? 1.4 : 0.25; g_noise = fmt / 10 == 2 ? 0.08 : 0.0008; fmt %= 10; g_amp_last = g_amp;   /* fmt 10..12: loud, 20..22: noisy */
    if (!strcmp(kind, "enc")) {
       if (na < 4) return -1;
       ch = (int)a[0]; S = (int)a[1]; C = (int)a[2];
@@ -474,8 +493,9 @@ static int run_x(char *line)
    in = (float *)malloc(sizeof(float) * (size_t)fr * ch); in16 = (opus_int16 *)malloc(sizeof(opus_int16) * (size_t)fr * ch);
    in24 = (opus_int32 *)malloc(sizeof(opus_int32) * (size_t)fr * ch);
    out = hx_buf_new(maxb > 0 ? maxb : 1, 0xC3);
+   er = (opus_uint32 *)calloc(S > 0 ? S : 1, sizeof(opus_uint32));
    for (pk = 0; pk < nfr; pk++) {
-      int n, k;
+      int n, k, er_ok = 1;
       gen_frame(in, ch, fr, (long)pk * fr, fs, ct, seed);
       for (k = 0; k < fr * ch; k++) {
          double v16 = in[k] * 32768.0, v24 = in[k] * 8388608.0;
@@ -490,8 +510,14 @@ static int run_x(char *line)
       hx_disarm();
       if (!hx_buf_ok(&out)) { js_open("ef"); js_int("x", g_exno); js_str("t", kind); js_str("at", "canary"); js_close(); fflush(stdout); abort(); }
       if (n <= 0) { js_open("ef"); js_int("x", g_exno); js_str("t", kind); js_int("i", pk); js_int("err", n); js_int("maxb", maxb); js_str("at", "encode"); js_close(); continue; }
+      for (k = 0; k < S; k++) {
+         OpusEncoder *se = NULL;
+         int rr = me ? opus_multistream_encoder_ctl(me, OPUS_MULTISTREAM_GET_ENCODER_STATE(k, &se))
+                     : opus_projection_encoder_ctl(pe, OPUS_MULTISTREAM_GET_ENCODER_STATE(k, &se));
+         if (rr != OPUS_OK || !se || opus_encoder_ctl(se, OPUS_GET_FINAL_RANGE(&er[k])) != OPUS_OK) er_ok = 0;
+      }
       if ((loss >> (pk % 30)) & 1) n = 0;
-      do_packet(&g, kind, g_exno, pk, out.p, n, fr, maxb, vbr ? 1 : 0, NULL);
+      do_packet(&g, kind, g_exno, pk, out.p, n, fr, maxb, vbr ? 1 : 0, NULL, er_ok ? er : NULL);
       if (pe && pd[0] && pd[1] && pd[2]) {
          /* the same packet through projection decoders of the three formats; tone statistics of their outputs */
          int f;
@@ -535,7 +561,7 @@ static int run_x(char *line)
          js_key("map"); js_ints(mi, ch); js_int("fs", fs); js_int("br", br); js_int("brc", brc); js_int("vbr", vbr); js_int("fr", fr); js_int("maxb", maxb);
          js_int("ms", (long)(g.tcount > g.tskip ? (g.tcount - g.tskip) : 0) * 1000 / fs); js_int("loss", loss); js_int("minc", g.minc);
          js_key("ct"); js_ints(ct, ch); js_key("si"); js_ints(si, nsl); js_key("sm"); js_ints(sm, nsl); js_key("sv"); js_ints(sv, nsl);
-         js_int("loud", g_amp > 1.0);
+         js_int("loud", g_amp > 1.0 || g_noise > 0.01);
          js_close();
       } else if (pre) {
          int f, c;
@@ -553,13 +579,13 @@ static int run_x(char *line)
          for (f = 0; f < 3; f++) { if (f) putchar(','); putchar('['); for (c = 0; c < ch; c++) { int b, m; tone_result(pre + ((size_t)f * ch + c) * NTONE, pim + ((size_t)f * ch + c) * NTONE, &b, &m);
                printf(c ? ",%d" : "%d", tone_level(pre + ((size_t)f * ch + c) * NTONE, pim + ((size_t)f * ch + c) * NTONE, b, pnum)); } putchar(']'); }
          putchar(']');
-         js_int("g", pgain); js_int("loud", g_amp > 1.0);
+         js_int("g", pgain); js_int("loud", g_amp > 1.0 || g_noise > 0.01);
          js_close();
       }
       free(si); free(sm); free(sv);
    }
    js_open("end"); js_int("x", g_exno); js_close();
-   free(in); free(in16); free(in24); hx_buf_free(&out); free(pre); free(pim);
+   free(in); free(in16); free(in24); hx_buf_free(&out); free(pre); free(pim); free(er);
    rig_close(&g);
    for (i = 0; i < 3; i++) if (pd[i]) opus_projection_decoder_destroy(pd[i]);
    if (me) opus_multistream_encoder_destroy(me);
@@ -572,7 +598,7 @@ static int run_h(char *line)
 {
    int fs, frq, S, C, nfr, variant; unsigned long seed; char *bar = strchr(line, '|'); long a[MAXCH + 8]; int na;
    int ch, i, s, pk, fr, err; unsigned char map[MAXCH + 8]; rig_t g; hx_rng r;
-   OpusEncoder **enc; int *ct, *halves; float *in; unsigned char *tmp, *tmp2, *msp; int *offs;
+   OpusEncoder **enc; int *ct, *halves; float *in; unsigned char *tmp, *tmp2, *msp; int *offs; opus_uint32 *er;
    static const int bws[5] = {OPUS_BANDWIDTH_NARROWBAND, OPUS_BANDWIDTH_MEDIUMBAND, OPUS_BANDWIDTH_WIDEBAND, OPUS_BANDWIDTH_SUPERWIDEBAND, OPUS_BANDWIDTH_FULLBAND};
    if (!bar) return -1;
    *bar = 0;
@@ -585,8 +611,9 @@ static int run_h(char *line)
    if (rig_open(&g, fs, ch, S, C, map) < 0) { js_open("ef"); js_int("x", g_exno); js_str("t", "hand"); js_str("at", "rig"); js_close(); return 0; }
    g.tskip = 1L << 40;
    r.s = seed;
-   g_amp = (seed % 3 == 0) ? 1.4 : 0.25;
+   g_amp = (seed % 3 == 0) ? 1.4 : 0.25; g_noise = 0.0008;
    fr = fs / 400 * frq;
+   er = (opus_uint32 *)calloc(S, sizeof(opus_uint32));
    enc = (OpusEncoder **)calloc(S, sizeof(OpusEncoder *)); ct = (int *)calloc(2 * S, sizeof(int)); halves = (int *)calloc(S, sizeof(int));
    for (s = 0; s < S; s++) {
       static const int apps[3] = {OPUS_APPLICATION_VOIP, OPUS_APPLICATION_AUDIO, OPUS_APPLICATION_RESTRICTED_LOWDELAY};
@@ -627,6 +654,7 @@ static int run_h(char *line)
             if (n1 <= 0) { bad = 1; break; }
             if (opus_repacketizer_cat(&rp, tmp, n1) != OPUS_OK) { bad = 1; break; }
          }
+         opus_encoder_ctl(enc[s], OPUS_GET_FINAL_RANGE(&er[s]));
          /* variant 2: padding inside the sub-packet */
          len = opus_repacketizer_out_range_impl(&rp, 0, opus_repacketizer_get_nb_frames(&rp), tmp2, 4100, s != S - 1, 0, NULL, 0);
          if (len <= 0) { bad = 1; break; }
@@ -637,11 +665,11 @@ static int run_h(char *line)
          offs[s] = tot; memcpy(msp + tot, tmp2, len); tot += len;
       }
       if (bad) { js_open("ef"); js_int("x", g_exno); js_str("t", "hand"); js_int("i", pk); js_str("at", "build"); js_close(); continue; }
-      do_packet(&g, "hand", g_exno, pk, msp, tot, fr, tot, 1, offs);
+      do_packet(&g, "hand", g_exno, pk, msp, tot, fr, tot, 1, offs, er);
    }
    js_open("end"); js_int("x", g_exno); js_close();
    for (s = 0; s < S; s++) opus_encoder_destroy(enc[s]);
-   free(enc); free(ct); free(halves); free(in); free(tmp); free(tmp2); free(msp); free(offs);
+   free(enc); free(ct); free(halves); free(in); free(tmp); free(tmp2); free(msp); free(offs); free(er);
    rig_close(&g);
    return 0;
 }
